@@ -8,6 +8,8 @@ trap "git -C $REPO checkout -- ." EXIT INT TERM
 git -C "$REPO" apply "$VERIF/seeded/$NAME/patch.diff" || { echo 'patch does not apply'; exit 2; }
 for id in "$@"; do
   echo "=== $id on seeded/$NAME"
-  "$VERIF/bin/check" $id $TIER 2>&1 | grep -E "^VIOLATION|^SUMMARY|^INFRA|^KNOWN" | head -8
+  out=$("$VERIF/bin/check" $id $TIER 2>&1)
+  echo "$out" | grep -E "^VIOLATION|^INFRA|^KNOWN" | head -8
+  echo "$out" | grep -E "^SUMMARY"
 done
 git -C "$REPO" checkout -- . ; git -C "$REPO" status --short | head -3
